@@ -42,6 +42,8 @@ pub struct GenOpts {
     pub expr_depth: usize,
     pub signed: bool,
     pub divmod: bool,
+    /// allow divisors that can be zero (x/0 is X in SV; 2-state engines have no defined value)
+    pub raw_div: bool,
     pub pow: bool,
     pub functions: bool,
     pub structs: bool,
@@ -75,6 +77,7 @@ impl Default for GenOpts {
             expr_depth: 3,
             signed: true,
             divmod: true,
+            raw_div: false,
             pow: false,
             functions: true,
             structs: true,
@@ -319,7 +322,7 @@ impl<'a> Gen<'a> {
                 let op = *self.rng.pick(&["/", "%"]);
                 self.feat("divmod");
                 // divisor forced non-zero most of the time (x/0 is X in SV)
-                if self.rng.chance(5, 6) {
+                if !self.o.raw_div || self.rng.chance(5, 6) {
                     format!("({} {} ({} | 1))", self.expr(env, d, width_hint), op, self.expr(env, d, width_hint))
                 } else {
                     format!("({} {} {})", self.expr(env, d, width_hint), op, self.expr(env, d, width_hint))
@@ -917,5 +920,57 @@ pub fn generate(rng: &mut Rng, opts: &GenOpts) -> Design {
         outputs,
         features: g.feats,
         has_ff,
+    }
+}
+
+impl Design {
+    /// Rebuild the port lists from the `module Top ( … ) {` header of a text in
+    /// DesignGen's own layout (one port per line).  Used by replay / reduction.
+    pub fn from_text(text: &str) -> Design {
+        let mut inputs = vec![];
+        let mut outputs = vec![];
+        let mut in_hdr = false;
+        for l in text.lines() {
+            if l.starts_with("module Top") {
+                in_hdr = true;
+                continue;
+            }
+            if in_hdr {
+                if l.starts_with(") {") {
+                    break;
+                }
+                let l = l.trim().trim_end_matches(',');
+                let Some((name, rest)) = l.split_once(':') else { continue };
+                let rest = rest.trim();
+                let (output, ty) = if let Some(t) = rest.strip_prefix("input") {
+                    (false, t.trim())
+                } else if let Some(t) = rest.strip_prefix("output") {
+                    (true, t.trim())
+                } else {
+                    continue;
+                };
+                if ty.contains("clock") || ty.contains("reset") {
+                    continue;
+                }
+                let signed = ty.starts_with("signed");
+                let width = ty
+                    .split_once('<')
+                    .and_then(|(_, r)| r.split_once('>'))
+                    .and_then(|(w, _)| w.trim().parse::<usize>().ok())
+                    .unwrap_or(1);
+                let p = Port { name: name.trim().to_string(), width, signed, output };
+                if output { outputs.push(p) } else { inputs.push(p) }
+            }
+        }
+        Design {
+            text: text.to_string(),
+            top: "Top".into(),
+            clock: "i_clk".into(),
+            reset: "i_rst".into(),
+            inputs,
+            outputs,
+            features: vec![],
+            has_ff: text.contains("always_ff"),
+        }
     }
 }
